@@ -23,7 +23,7 @@ for op, nm in OPN.items():
             for ad in (0, 1):
                 if (a_s, ad) in ((2, 1), (3, 1)):
                     continue            # @Rn / @Rn+ source with indexed destination: combination of two covered mechanisms, left out to bound the run time
-                quick = (a_s == 0 and ad == 0 and (bw == 0 or nm in ("mov", "sub", "xor"))) or (nm == "mov" and (a_s, ad) in ((2, 0), (1, 1), (3, 0)) and bw == 0) or (nm == "add" and (a_s, ad, bw) == (3, 0, 1))
+                quick = (a_s == 0 and ad == 0) or (nm == "mov" and (a_s, ad) in ((2, 0), (1, 1), (3, 0)) and bw == 0) or (nm == "add" and (a_s, ad, bw) == (3, 0, 1))
                 g("two.%s.%s.As%d.Ad%d" % (nm, "b" if bw else "w", a_s, ad), ["FMT=2", "OP=%d" % op, "BW=%d" % bw, "AS=%d" % a_s, "AD=%d" % ad], "quick" if quick else "thorough")
         for a_s in ((0, 1, 2, 3) if nm in ("mov", "add") else ()):       # constant generator r3, and r2 (As 2,3 constants; As 1 absolute)
             g("two.%s.%s.cg3.As%d" % (nm, "b" if bw else "w", a_s), ["FMT=2", "OP=%d" % op, "BW=%d" % bw, "AS=%d" % a_s, "AD=0", "SREGSEL=1"], "quick" if (nm == "mov" and bw == 0 and a_s in (1, 3)) else "thorough")
